@@ -303,7 +303,10 @@ CLAIMS = {
         note='Trusted: Lean kernel; CPython list.sort stability/consistency on homogeneous keys; model validated by '
              'correspondence with the None-group order canonicalised. Partial: /nocase with a None key raises '
              '(finding C13-nocase-none)',
-        technique='Lean 4 proof (TransCmp instances + core mergeSort lemmas) + correspondence',
+        technique='Lean 4 proof (TransCmp instances + core mergeSort lemmas) + correspondence; SortBy.__call__ and the key '
+                  'extraction of sort_sequence translated from the source on every run (Gen.gen_sortby_call_is_model, '
+                  'gen_sortby_call_single_is_model, gen_extract_single_is_model, gen_extract_multi_is_model, '
+                  'gen_extract_keys_is_model)',
         ref='DESIGN.md §5 C13'),
     'C16': dict(
         text='Lean 4 theorems (Mathlib ring/field_simp/linarith over Q) about the one-pass statistics model for ALL '
